@@ -196,6 +196,23 @@ def M_sb_insert(it, ctx, args, st):
     yield st, Agg('SEBuilder', b.fields[:3] + (b.fields[3] + ((k, v),),))
 
 
+def M_sb_extend(it, ctx, args, st):
+    """Builder::extend_parameters(iter of (key, value)): insert_parameters for every item, in order"""
+    b = args[0]
+    from mirsym.models_std import drain, as_iter
+    for s2, items in drain(it, st, as_iter(it, st, args[1]), ctx.fr):
+        if is_abnormal(items):
+            yield s2, items
+            continue
+        extra = []
+        for x in items:
+            x = s2.deref_all(x) if isinstance(x, Ptr) else x
+            k = s2.deref_all(x.fields[0]) if isinstance(x.fields[0], Ptr) else x.fields[0]
+            v = s2.deref_all(x.fields[1]) if isinstance(x.fields[1], Ptr) else x.fields[1]
+            extra.append((k, v))
+        yield s2, Agg('SEBuilder', b.fields[:3] + (b.fields[3] + tuple(extra),))
+
+
 def M_sb_build(it, ctx, args, st):
     yield st, Agg('SerializableError', args[0].fields)
 
@@ -212,7 +229,7 @@ def M_display_to_string(it, ctx, args, st):
 ENCODE_MODELS = [
     (SE + r'SerializableError::builder', M_sb_new),
     (SE + r'Builder::<.*>::error_code', M_sb_set(0)), (SE + r'Builder::<.*>::error_name::<.*>', M_sb_set(1)), (SE + r'Builder::<.*>::error_instance_id', M_sb_set(2)),
-    (SE + r'Builder::<.*>::insert_parameters::<.*>', M_sb_insert), (SE + r'Builder::<.*>::build', M_sb_build),
+    (SE + r'Builder::<.*>::insert_parameters::<.*>', M_sb_insert), (SE + r'Builder::<.*>::extend_parameters::<.*>', M_sb_extend), (SE + r'Builder::<.*>::build', M_sb_build),
     (r'<(?:bool|f64|f32) as (?:std|alloc)::string::ToString>::to_string', M_display_to_string),
 ]
 # parameter kinds of the harness error type: how the field's Serialize impl presents it, and the text the statement prescribes
